@@ -36,8 +36,18 @@ class Mismatch(Exception):
 # rendering a history as program text
 
 
+def lit(s):
+    if s == "":
+        return "``"
+    if s == []:
+        return "⟨⟩"
+    if isinstance(s, list):
+        return "⟨" + "|".join(lit(x) for x in s) + "⟩"
+    return str(s)
+
+
 def lit_args(sents):
-    return " ".join(str(s) for s in sents)
+    return " ".join(lit(s) for s in sents)
 
 
 def render_events(events, in_body):
@@ -45,11 +55,14 @@ def render_events(events, in_body):
     for ev in events:
         k = ev[0]
         if k == "exp":
-            out.append("? ⅛")
+            # optionally through Ė: the same read performed by code that is executed from a string
+            out.append("`? ⅛` Ė" if len(ev) > 1 and ev[1] == "Ė" else "? ⅛")
         elif k == "imp":
             a, sents = ev[1], ev[2]
             pre = lit_args(sents)
             op = {1: "⅛", 2: "\" ⅛", 3: "∇ W ⅛"}[a]
+            if a == 1 and not sents and len(ev) > 3 and ev[3] == "Ė":
+                op = "`⅛` Ė"
             out.append((pre + " " if pre else "") + op)
         elif k == "tilde":
             # `~"`: the modifier pops its element's two arguments WITHOUT removing them (retain_popped): on an empty stack
@@ -78,7 +91,7 @@ def render_events(events, in_body):
         elif k == "map":
             kind, items, body, h = ev[1], ev[2], ev[3], ev[4]
             opener = {"map": "ƛ", "filter": "'", "vec": "λ"}[kind]
-            lst = "⟨" + "|".join(str(s) for s in items) + "⟩"
+            lst = "⟨" + "|".join(lit(s) for s in items) + "⟩"
             if kind == "vec":
                 out.append(lst + " λ W ⅛ " + render_events(body, True) + " 0 ; M →m" + h)
             else:
@@ -118,7 +131,7 @@ def minus(values, sents, what):
     vals = list(values)
     for s in sents:
         for i, v in enumerate(vals):
-            if v == s and not isinstance(v, list):
+            if v == s and (not isinstance(v, list) or v == []):
                 del vals[i]
                 break
         else:
@@ -314,11 +327,11 @@ class C11(core.Check):
         for _ in range(n):
             x = r.random()
             if x < 0.22:
-                evs.append(["exp"])
+                evs.append(["exp", "Ė"] if r.random() < 0.15 else ["exp"])
             elif x < 0.50:
                 a = r.choice([1, 1, 2, 2, 3])
                 p = r.randint(0, a - 1) if r.random() < 0.4 else 0
-                evs.append(["imp", a, [sent() for _ in range(p)]])
+                evs.append(["imp", a, [sent() for _ in range(p)]] + (["Ė"] if a == 1 and p == 0 and r.random() < 0.2 else []))
             elif x < 0.53:
                 evs.append(["over", [sent()] if r.random() < 0.4 else []])
             elif x < 0.57:
@@ -358,13 +371,21 @@ class C11(core.Check):
         rw.shuffle(pool)
         inputs = []
         for i in range(n):
-            if rw.random() < 0.25:
+            y = rw.random()
+            if y < 0.25:
                 inputs.append([pool.pop(), pool.pop()])
+            elif y < 0.35:
+                inputs.append("s%d" % pool.pop())
+            elif y < 0.40:
+                inputs.append([[pool.pop()], pool.pop()])
             else:
                 inputs.append(pool.pop())
         counter = [100]
 
         def sent():
+            # pushed literals are unique integers, or now and then a value that is falsy without being 0
+            if rw.random() < 0.08:
+                return ""  # (`⟨⟩` is not usable: list-literal items see a copy of the enclosing stack)
             counter[0] += 1
             return counter[0]
 
@@ -397,6 +418,8 @@ class C11(core.Check):
                 stdin = ["" for _ in range(rf.randint(1, 3))]
         driver = "main" if rw.random() < 0.3 else "world"
         case = dict(inputs=inputs, events=events, stdin=stdin, stdin_after=after, driver=driver)
+        if driver == "main" and inputs and rw.random() < 0.3:
+            case["flag"] = rw.choice(["a", "Ṡ"])  # all inputs as one list / every input as a string
         if rw.random() < 0.35:
             # an earlier, unrelated execution in the same process (its own Context, its own inputs, r reads)
             case["prelude"] = [[rw.randint(200, 299) for _ in range(rw.randint(1, 3))], rw.randint(1, 5)]
@@ -433,7 +456,8 @@ class C11(core.Check):
             world.CLOCK.start(budget=STEP_BUDGET, count_string=True)
             try:
                 with world.rec_limit():
-                    main.execute_vyxal(text, "eO", [core.jdump(x) for x in inputs])
+                    # D: string literals are raw (the only strings in these programs are code handed to Ė)
+                    main.execute_vyxal(text, "eOD" + case.get("flag", ""), [core.jdump(x) for x in inputs])
             except world.StepBudgetExceeded:
                 outcome = "budget"
             except world.ValueTooBig:
@@ -453,7 +477,8 @@ class C11(core.Check):
             world.CLOCK.start(budget=STEP_BUDGET)
             try:
                 with world.rec_limit():
-                    w.run_code(w.compile_program(text))
+                    w.ctx.dictionary_compression = False
+                    w.run_code(w.compile_program(text, dict_compress=False))
             except world.StepBudgetExceeded:
                 outcome = "budget"
             except world.ValueTooBig:
@@ -492,6 +517,10 @@ class C11(core.Check):
 
         if not inputs and not judged_stdin:
             return dict(verdict=DISCARD, sig="stdin-has-lines", log=log, steps=steps, faults=faults, hist=None)
+        if case.get("driver") == "main" and case.get("flag") == "a":
+            inputs = [list(inputs)]          # the a flag: the inputs form ONE input, a list
+        elif case.get("driver") == "main" and case.get("flag") == "Ṡ":
+            inputs = [core.jdump(x) for x in inputs]  # the Ṡ flag: every input stays the string that was passed
         mon = Monitor(inputs, observed)
         try:
             mon.walk(case["events"], mon.top)
